@@ -567,6 +567,8 @@ func fieldValues(v ssa.Value, field int, depth int) (vals []ssa.Value, ok bool) 
 		return nil, false
 	}
 	switch x := v.(type) {
+	case *ssa.Const:
+		return nil, true // the zero value of the struct: every field holds its zero value
 	case *ssa.UnOp:
 		if x.Op != token.MUL {
 			return nil, false
